@@ -189,6 +189,12 @@ func (l *listener) handle(conn net.Conn) {
 		l.logger.Error("handling connection", zap.Error(err))
 	}
 
+	if errors.Is(err, errHijacked) {
+		// the connection now belongs to whoever accepted it from the wrapped listener:
+		// its byte counters are being updated by that goroutine and must not be read here
+		return
+	}
+
 	l.logger.Debug("connection stats",
 		zap.String("remote", cx.RemoteAddr().String()),
 		zap.Uint64("read", cx.bytesRead),
